@@ -128,6 +128,7 @@ type Engine struct {
 	sumFns        map[string]string
 	sortPerms     []sortPerm
 	callArgTypes  map[string]types.Type
+	quiet         int // >0: obligations are discarded (auxiliary re-executions)
 	freshResultsAlias bool // true while creating the symbolic inputs of the function under verification
 	anc           map[int]map[int]bool // top-level function: block -> blocks that can reach it (forward edges)
 	allocRefs     map[string]bool
@@ -205,6 +206,9 @@ func (e *Engine) oblName(kind, label string) string {
 
 func (e *Engine) addObl(st *State, kind, label, prop string, pos token.Pos) *Obligation {
 	goal := implies(st.cond, prop)
+	if e.quiet > 0 {
+		return &Obligation{Name: "quiet", Status: "discharged"}
+	}
 	if e.vc.inline {
 		return &Obligation{Name: "inline", Status: "discharged"}
 	}
@@ -302,6 +306,9 @@ func (e *Engine) typeInv(term string, t types.Type) string {
 	switch kindOf(t) {
 	case kInt:
 		return inRange(term, t)
+	case kTime:
+		// times are the zero time or representable as int64 nanoseconds since the Unix epoch (years 1678-2262)
+		return or(eq(term, timeZeroNs), and(app("<=", "(- 9223372036854775808)", term), app("<=", term, "9223372036854775807")))
 	case kStr:
 		return and(app("<=", "0", app("str_len", term)), app("<=", app("str_len", term), "9223372036854775807"))
 	case kSlice:
@@ -378,6 +385,8 @@ type Frame struct {
 	loopHavoc map[int]map[ssa.Value]Val
 	loopMapBad bool
 	iterOrd    map[ssa.Instruction]int
+	nextOverride *[3]Val // re-running a map-range body: the element the iterator delivers
+	quiet        bool    // obligations generated in this frame are discarded (auxiliary re-execution)
 }
 
 type deferRec struct {
@@ -685,73 +694,175 @@ func (fr *Frame) run(st *State, args []Val) []retRec {
 		if fr.top {
 			e.vc.curTag = b.Index
 		}
-		var conds []string
-		var sts []*State
-		var preds []*ssa.BasicBlock
+		var entrySt *State
 		if b.Index == 0 {
-			conds, sts = []string{st.cond}, []*State{st}
-		} else {
-			for _, p := range b.Preds {
-				if fr.isBackEdge(p, b) {
-					continue
-				}
-				ps, ok := fr.out[p.Index]
-				if !ok {
-					continue
-				}
-				c := fr.edge[[2]int{p.Index, b.Index}]
-				if c == "false" || c == "" {
-					continue
-				}
-				conds = append(conds, c)
-				sts = append(sts, ps)
-				preds = append(preds, p)
-			}
+			entrySt = st
 		}
-		if len(sts) == 0 {
-			continue // unreachable
-		}
-		cur := e.mergeStates(conds, sts)
-		// phis
-		phiVals := map[*ssa.Phi]Val{}
-		for _, in := range b.Instrs {
-			phi, ok := in.(*ssa.Phi)
-			if !ok {
-				break
-			}
-			var v Val
-			first := true
-			for i := len(preds) - 1; i >= 0; i-- {
-				pi := predIndex(b, preds[i])
-				pv := fr.get(phi.Edges[pi])
-				if first {
-					v = pv
-					first = false
-				} else {
-					v = fr.iteVal(conds[i], pv, v)
-				}
-			}
-			if v.S != "" && len(v.S) > 48 {
-				v.S = e.vc.define(phi.Comment+"_phi", e.vc.sortOf(phi.Type()), v.S)
-			}
-			v.T = phi.Type()
-			phiVals[phi] = v
-		}
-		if li := fr.loops[b.Index]; li != nil {
-			fr.loopCut(li, cur, phiVals)
-			if len(e.oos) > 0 {
-				return nil
-			}
-		}
-		for phi, v := range phiVals {
-			fr.regs[phi] = v
-		}
-		fr.execBlock(b, cur)
-		if len(e.oos) > 0 {
+		if !fr.stepBlock(b, entrySt, nil, nil) {
 			return nil
 		}
 	}
 	return fr.rets
+}
+
+// stepBlock computes the in-state of block b from its (forward) predecessors and executes it.
+// entry: explicit in-state (function entry, or the header of a loop body being re-run); phiIn: explicit phi values.
+// only: when non-nil, predecessors outside this block set are ignored (re-running a loop body).
+func (fr *Frame) stepBlock(b *ssa.BasicBlock, entry *State, phiIn map[*ssa.Phi]Val, only map[int]bool) bool {
+	e := fr.e
+	var conds []string
+	var sts []*State
+	var preds []*ssa.BasicBlock
+	if entry != nil {
+		conds, sts = []string{entry.cond}, []*State{entry}
+	} else {
+		for _, p := range b.Preds {
+			if fr.isBackEdge(p, b) {
+				continue
+			}
+			if only != nil && !only[p.Index] {
+				continue
+			}
+			ps, ok := fr.out[p.Index]
+			if !ok {
+				continue
+			}
+			c := fr.edge[[2]int{p.Index, b.Index}]
+			if c == "false" || c == "" {
+				continue
+			}
+			conds = append(conds, c)
+			sts = append(sts, ps)
+			preds = append(preds, p)
+		}
+	}
+	if len(sts) == 0 {
+		return true // unreachable
+	}
+	cur := e.mergeStates(conds, sts)
+	phiVals := map[*ssa.Phi]Val{}
+	for _, in := range b.Instrs {
+		phi, ok := in.(*ssa.Phi)
+		if !ok {
+			break
+		}
+		if phiIn != nil {
+			if v, ok := phiIn[phi]; ok {
+				phiVals[phi] = v
+			}
+			continue
+		}
+		var v Val
+		first := true
+		for i := len(preds) - 1; i >= 0; i-- {
+			pi := predIndex(b, preds[i])
+			pv := fr.get(phi.Edges[pi])
+			if first {
+				v = pv
+				first = false
+			} else {
+				v = fr.iteVal(conds[i], pv, v)
+			}
+		}
+		if v.S != "" && len(v.S) > 48 {
+			v.S = e.vc.define(phi.Comment+"_phi", e.vc.sortOf(phi.Type()), v.S)
+		}
+		v.T = phi.Type()
+		phiVals[phi] = v
+	}
+	if li := fr.loops[b.Index]; li != nil && phiIn == nil {
+		fr.loopCut(li, cur, phiVals)
+		if len(e.oos) > 0 {
+			return false
+		}
+	}
+	for phi, v := range phiVals {
+		fr.regs[phi] = v
+	}
+	fr.execBlock(b, cur)
+	return len(e.oos) == 0
+}
+
+// runLoopBody re-executes one iteration of the map-range loop li from state st with the given header phi values
+// and the given (key, value) as the element delivered by the iterator. It returns the state and phi values at
+// the back edge, and the condition under which the iteration leaves the loop instead (break / return).
+func (fr *Frame) runLoopBody(li *loopInfo, st *State, phiIn map[*ssa.Phi]Val, key, val Val) (*State, map[*ssa.Phi]Val, string) {
+	e := fr.e
+	sub := &Frame{e: e, fn: fr.fn, regs: map[ssa.Value]Val{}, bindings: fr.bindings, depth: fr.depth, entry: fr.entry, out: map[int]*State{}, edge: map[[2]int]string{},
+		loops: fr.loops, loopList: fr.loopList, envAt: fr.envAt, iters: fr.iters, loopHavoc: map[int]map[ssa.Value]Val{}, params: fr.params, label: fr.lbl("commute"),
+		contract: nil, quiet: true}
+	frameParents[sub] = frameParents[fr]
+	for k, v := range fr.regs {
+		sub.regs[k] = v
+	}
+	sub.nextOverride = &[3]Val{{S: "true", T: types.Typ[types.Bool]}, key, val}
+	h := li.header
+	for _, b := range fr.rpo() {
+		if !li.blocks[b.Index] {
+			continue
+		}
+		var ok bool
+		if b == h {
+			ok = sub.stepBlock(b, st.clone(), phiIn, li.blocks)
+		} else {
+			ok = sub.stepBlock(b, nil, nil, li.blocks)
+		}
+		if !ok {
+			return nil, nil, "true"
+		}
+	}
+	delete(frameParents, sub)
+	// back edges
+	var conds []string
+	var sts []*State
+	var latches []*ssa.BasicBlock
+	for _, p := range li.latches {
+		c := sub.edge[[2]int{p.Index, h.Index}]
+		if ps, ok := sub.out[p.Index]; ok && c != "" && c != "false" {
+			conds = append(conds, c)
+			sts = append(sts, ps)
+			latches = append(latches, p)
+		}
+	}
+	if len(sts) == 0 {
+		return nil, nil, "true"
+	}
+	outSt := e.mergeStates(conds, sts)
+	phiOut := map[*ssa.Phi]Val{}
+	for _, in := range h.Instrs {
+		phi, ok := in.(*ssa.Phi)
+		if !ok {
+			break
+		}
+		var v Val
+		for i := len(latches) - 1; i >= 0; i-- {
+			pv := sub.get(phi.Edges[predIndex(h, latches[i])])
+			if i == len(latches)-1 {
+				v = pv
+			} else {
+				v = sub.iteVal(conds[i], pv, v)
+			}
+		}
+		v.T = phi.Type()
+		phiOut[phi] = v
+	}
+	// early exits: edges from loop blocks to blocks outside the loop (other than the header's own exit), returns, panics
+	var exits []string
+	for bi := range li.blocks {
+		b := fr.fn.Blocks[bi]
+		for _, s := range b.Succs {
+			if li.blocks[s.Index] {
+				continue
+			}
+			if c := sub.edge[[2]int{b.Index, s.Index}]; c != "" && c != "false" {
+				exits = append(exits, c)
+			}
+		}
+	}
+	for _, r := range sub.rets {
+		exits = append(exits, r.cond)
+	}
+	return outSt, phiOut, or(exits...)
 }
 
 func predIndex(b *ssa.BasicBlock, p *ssa.BasicBlock) int {
@@ -1108,6 +1219,100 @@ func (fr *Frame) loopCut(li *loopInfo, cur *State, phiVals map[*ssa.Phi]Val) {
 	for _, inv := range invs {
 		f := e.evalBool(inv.expr, assumeEnv)
 		e.assumeIn(cur, f)
+	}
+	if e.quiet == 0 {
+		fr.commuteObls(li, cur, phiVals, mods)
+	}
+}
+
+// commuteObls: for a loop that ranges over a Go map, the result must not depend on the iteration order.
+// Obligation: from an arbitrary loop state, processing two distinct entries in either order yields the same
+// loop-carried values and the same memory; and no iteration leaves the loop early.
+func (fr *Frame) commuteObls(li *loopInfo, cur *State, phiVals map[*ssa.Phi]Val, mods map[string]*modInfo) {
+	e := fr.e
+	var nx *ssa.Next
+	for _, in := range li.header.Instrs {
+		if n, ok := in.(*ssa.Next); ok && !n.IsString {
+			nx = n
+		}
+	}
+	if nx == nil {
+		return
+	}
+	it := fr.iters[nx.Iter]
+	if it == nil {
+		return
+	}
+	mt := types.Unalias(it.m.T).Underlying().(*types.Map)
+	vn, vs, dn, ds := e.vc.mapHeapName(mt.Key(), mt.Elem())
+	ksort := e.vc.sortOf(mt.Key())
+	dom := app("select", e.heap(cur, dn, ds), it.m.S)
+	vals := app("select", e.heap(cur, vn, vs), it.m.S)
+	k1, k2 := e.vc.fresh("ck1", ksort), e.vc.fresh("ck2", ksort)
+	base := cur.clone()
+	base.cond = e.vc.define("commute", "Bool", and(cur.cond, app("select", dom, k1), app("select", dom, k2), not(eq(k1, k2))))
+	mk := func(k string) (Val, Val) {
+		v := e.vc.define("cv", e.vc.sortOf(mt.Elem()), app("select", vals, k))
+		e.vc.assume(and(e.typeInv(k, mt.Key()), e.typeInv(v, mt.Elem())))
+		return Val{S: k, T: mt.Key()}, Val{S: v, T: mt.Elem()}
+	}
+	ka, va := mk(k1)
+	kb, vb := mk(k2)
+	e.quiet++
+	s1, p1, x1 := fr.runLoopBody(li, base, phiVals, ka, va)
+	var s12, s21 *State
+	var p12, p21 map[*ssa.Phi]Val
+	x12, x2, x21 := "true", "true", "true"
+	if s1 != nil {
+		s12, p12, x12 = fr.runLoopBody(li, s1, p1, kb, vb)
+	}
+	s2, p2, xx2 := fr.runLoopBody(li, base, phiVals, kb, vb)
+	x2 = xx2
+	if s2 != nil {
+		s21, p21, x21 = fr.runLoopBody(li, s2, p2, ka, va)
+	}
+	e.quiet--
+	ord := li.ordinal
+	if s12 == nil || s21 == nil {
+		e.addObl(base, fmt.Sprintf("order.loop%d", ord), fr.lbl("body_runs_to_the_back_edge"), "false", li.header.Instrs[0].Pos())
+		return
+	}
+	e.addObl(base, fmt.Sprintf("order.loop%d", ord), fr.lbl("no_early_exit"), not(or(x1, x12, x2, x21)), li.header.Instrs[0].Pos())
+	chk := base.clone()
+	chk.cond = e.vc.define("commute2", "Bool", and(base.cond, not(or(x1, x12, x2, x21))))
+	for _, in := range li.header.Instrs {
+		phi, ok := in.(*ssa.Phi)
+		if !ok {
+			break
+		}
+		a, b := p12[phi], p21[phi]
+		if a.S == "" || b.S == "" || a.S == "addr" || len(a.Tup) > 0 {
+			continue
+		}
+		name := phi.Comment
+		if name == "" {
+			name = phi.Name()
+		}
+		e.addObl(chk, fmt.Sprintf("order.loop%d", ord), fr.lbl("same_"+name), eq(a.S, b.S), li.header.Instrs[0].Pos())
+	}
+	var names []string
+	for n := range mods {
+		names = append(names, n)
+	}
+	sort.Strings(names)
+	for _, n := range names {
+		if n == it.seen || n == "G_*" {
+			continue
+		}
+		srt, ok := e.heapSorts[n]
+		if !ok {
+			continue
+		}
+		a, b := e.heap(s12, n, srt), e.heap(s21, n, srt)
+		if a == b {
+			continue
+		}
+		e.addObl(chk, fmt.Sprintf("order.loop%d", ord), fr.lbl("same_memory_"+n), eq(a, b), li.header.Instrs[0].Pos())
 	}
 }
 
@@ -2062,6 +2267,10 @@ func (fr *Frame) doRange(x *ssa.Range, st *State) {
 
 func (fr *Frame) doNext(x *ssa.Next, st *State) Val {
 	e := fr.e
+	if fr.nextOverride != nil {
+		ov := fr.nextOverride
+		return Val{T: x.Type(), Tup: []Val{ov[0], ov[1], ov[2]}}
+	}
 	it := fr.iters[x.Iter]
 	if it == nil {
 		e.unsupported("next on unknown iterator")
